@@ -23,6 +23,12 @@ type Scen struct {
 	Type   string
 	Addr   string
 	Label  string
+	// ACType is the access-controller type of the database ("ipfs" unless ScenOpts says otherwise);
+	// acParams builds the access-controller options an opener of the database passes (nil for the
+	// ipfs controller, whose write list is stored with the database: openers pass nothing)
+	ACType   string
+	acParams func() accesscontroller.ManifestParams
+	replic   *bool
 }
 
 type ScenOpts struct {
@@ -31,6 +37,16 @@ type ScenOpts struct {
 	NoOpen    bool // only create replicas
 	AutoNet   bool // deliver published/sent payloads immediately (default: queue them; drivers sync manually)
 	Replicate *bool
+	// ACType selects the access-controller type: "" or "ipfs" (the default: the write list is saved
+	// in IPFS and named by the database manifest), or "simple" (nothing is persisted: EVERY opener,
+	// also the one reopening after a restart, builds the controller from the options it passes, so
+	// all replicas of the scenario pass the same write list).
+	ACType string
+	// ACNoWriteKey (simple, empty list): the access map has no "write" key at all instead of an
+	// empty list.  (Plain options with Type "simple" and without SkipManifest do not work for the
+	// creator: the manifest address of a simple controller is the undefined CID, which Create's
+	// own Open cannot parse; NewSimpleManifestParams is the only way in.)
+	ACNoWriteKey bool
 }
 
 func sharedEnv() (*sim.Env, error) {
@@ -94,7 +110,26 @@ func NewScen(n int, storeType string, o *ScenOpts) (*Scen, error) {
 			writers = append(writers, s.Reps[i].Orbit.Identity().ID)
 		}
 	}
-	ac := &accesscontroller.CreateAccessControllerOptions{Access: map[string][]string{"write": writers}}
+	access := func() map[string][]string {
+		if o.ACNoWriteKey && len(writers) == 0 {
+			return map[string][]string{}
+		}
+		return map[string][]string{"write": append([]string{}, writers...)}
+	}
+	var ac accesscontroller.ManifestParams = &accesscontroller.CreateAccessControllerOptions{Access: access()}
+	s.ACType, s.replic = "ipfs", o.Replicate
+	switch o.ACType {
+	case "", "ipfs":
+	case "simple":
+		s.ACType = "simple"
+		// a fresh options value for every open: Create/Open write into the value they are given
+		s.acParams = func() accesscontroller.ManifestParams {
+			return accesscontroller.NewSimpleManifestParams("simple", access())
+		}
+		ac = s.acParams()
+	default:
+		return nil, fmt.Errorf("access controller type %q cannot be constructed here", o.ACType)
+	}
 	ctx := env.Ctx
 	st, err := s.Reps[0].Orbit.Create(ctx, "db-"+s.Label, storeType, &orbitdb.CreateDBOptions{AccessController: ac, Replicate: o.Replicate})
 	if err != nil {
@@ -103,7 +138,7 @@ func NewScen(n int, storeType string, o *ScenOpts) (*Scen, error) {
 	s.Stores = append(s.Stores, st)
 	s.Addr = st.Address().String()
 	for i := 1; i < n; i++ {
-		st2, err := s.Reps[i].Orbit.Open(ctx, s.Addr, &orbitdb.CreateDBOptions{Replicate: o.Replicate})
+		st2, err := s.Reps[i].Orbit.Open(ctx, s.Addr, s.OpenOptions())
 		if err != nil {
 			return nil, fmt.Errorf("open on replica %d: %w", i, err)
 		}
@@ -111,6 +146,29 @@ func NewScen(n int, storeType string, o *ScenOpts) (*Scen, error) {
 	}
 	s.Canon.LogID.ID(s.Addr)
 	return s, nil
+}
+
+// OpenOptions are the options a replica of the scenario opens the database with.
+func (s *Scen) OpenOptions() *orbitdb.CreateDBOptions {
+	o := &orbitdb.CreateDBOptions{Replicate: s.replic}
+	if s.acParams != nil {
+		o.AccessController = s.acParams()
+	}
+	return o
+}
+
+// Reopen closes store i and opens the same address again on the same instance (a restart of
+// the database), with the options the scenario's replicas open it with.
+func (s *Scen) Reopen(i int) error {
+	if err := s.Stores[i].Close(); err != nil {
+		return fmt.Errorf("close: %w", err)
+	}
+	st2, err := s.Reps[i].Orbit.Open(context.Background(), s.Addr, s.OpenOptions())
+	if err != nil {
+		return fmt.Errorf("reopen: %w", err)
+	}
+	s.Stores[i] = st2
+	return nil
 }
 
 // Close closes all instances of the scenario (the shared env stays).
